@@ -1323,7 +1323,7 @@ def r8(facts):
                                why='the function puts a whole position in place (%s)' % placed[:60] if placed else
                                'the end-of-song flag is cleared by a function that does not set up the playing position: after a load that was refused while its tracks were being built '
                                '(default-constructed position iterators) this store lets processEvents() dereference them'))
-    if na < 2:
+    if na < 1:
         raise build.AnalysisBroken('C01.R8: stores m_atEnd = false not found (%d)' % na)
     # (b) loop-stack level
     m = 0
@@ -1882,7 +1882,7 @@ def r12(facts):
                            why='at most %d byte(s) are written per pass of the scope' % total if ok else
                            ('the pointer can advance by %d, the array holds %d' % (total, ext) if total is not None else
                             'the advance of the pointer is not bounded (stack buffer overrun): %s' % why_bad)))
-    if n < 1:
+    if n < 1 and facts.fns.get('Convert_mus2midi'):      # (the only instance lives in the MUS converter: absent from the view without it)
         raise build.AnalysisBroken('C01.R12: no pointer walking a local byte array found in the converter files')
     return out
 
